@@ -129,7 +129,9 @@ def expected(repo, ci, spec, case, contracts=None, loops=None):
         if name in x.single:
             d = x.single[name]
             facts.append(d["dt"] == (INT if inp["dtype"] == "int" else FLT))
-            facts.append(d["sh"] == base_shape)
+            facts.append(d["sh"] == shape_term(inp.get("shape", case["shape"])))
+            if tuple(inp.get("shape", case["shape"])) != tuple(case["shape"]):
+                continue
             for i, c in enumerate(cells):
                 facts.append(d["M"](c) == bool(inp["mask"][i]))
                 facts.append(d["X"](c) == rv(inp["data"][i]))
